@@ -104,8 +104,19 @@ Inductive res := ROk | RRefused | RErr.
 Inductive omode := MR | MW | MA | MX | MRP.
 Definition writes (m : omode) : bool := match m with MR => false | _ => true end.
 
+(* os.open flags: the access mode and the modifier bits the wrapper and the kernel look at *)
+Inductive access := ARd | AWr | ARdWr.
+Record oflags := { acc : access; o_creat : bool; o_excl : bool; o_trunc : bool; o_append : bool;
+                   o_tmpfile : bool }.
+Definition acc_writes (a : access) : bool := match a with ARd => false | _ => true end.
+(* FilesystemIsolation._os_open_tracked: flags & (O_WRONLY|O_RDWR|O_CREAT|O_TRUNC|O_APPEND|O_TMPFILE);
+   O_RDONLY is 0 and O_EXCL is not in the mask *)
+Definition guarded (f : oflags) : bool :=
+  acc_writes (acc f) || o_creat f || o_trunc f || o_append f || o_tmpfile f.
+
 Inductive op :=
   | Open (p : path) (m : omode) (d : list Z)
+  | OsOpen (p : path) (f : oflags) (d : list Z)
   | Touch (p : path)
   | Mkdir (p : path) (eo : bool)
   | Makedirs (p : path) (eo : bool)
@@ -135,6 +146,35 @@ Definition do_open (st : state) (p : path) (m : omode) (d : list Z) : state * re
       | MR | MRP => (st, RErr)
       | _ => if is_dir st (parent p) then (write p (File d) st, ROk) else (st, RErr)
       end
+  end.
+
+(* os.open(p, flags) + os.write(fd, d) if the access mode allows + os.close, through the wrapper.
+   Linux semantics: O_TRUNC truncates even with O_RDONLY; O_CREAT|O_EXCL fails on anything that exists;
+   a directory can only be opened O_RDONLY without O_CREAT/O_TRUNC; O_TMPFILE (= __O_TMPFILE|O_DIRECTORY)
+   needs a directory and write access and creates an unnamed file (no visible change). *)
+Definition written (f : oflags) (c d : list Z) : list Z :=
+  let c1 := if o_trunc f then [] else c in
+  if acc_writes (acc f) then (if o_append f then c1 ++ d else d ++ skipn (length d) c1) else c1.
+
+Definition do_os_open (st : state) (p : path) (f : oflags) (d : list Z) : state * res :=
+  if guarded f && foreign st p then (st, RRefused) else
+  if o_tmpfile f then
+    match fs st p with
+    | Some Dir => if acc_writes (acc f) then (record p st, ROk) else (st, RErr)
+    | _ => (st, RErr)
+    end
+  else
+  match fs st p with
+  | Some Dir =>
+      if o_creat f || o_trunc f || acc_writes (acc f) then (st, RErr)
+      else (if guarded f then record p st else st, ROk)
+  | Some (File c) =>
+      if o_creat f && o_excl f then (st, RErr)
+      else if guarded f then (write p (File (written f c d)) st, ROk) else (st, ROk)
+  | None =>
+      if o_creat f then
+        if is_dir st (parent p) then (write p (File (written f [] d)) st, ROk) else (st, RErr)
+      else (st, RErr)
   end.
 
 Definition do_touch (st : state) (p : path) : state * res :=
@@ -266,6 +306,7 @@ Definition do_rmtree (st : state) (p : path) : state * res :=
 Definition step (st : state) (o : op) : state * res :=
   match o with
   | Open p m d => do_open st p m d
+  | OsOpen p f d => do_os_open st p f d
   | Touch p => do_touch st p
   | Mkdir p eo => do_mkdir st p eo
   | Makedirs p eo => do_makedirs st p eo
